@@ -577,8 +577,18 @@ package server
 //@   ghost after call GetLeader: ghost.curEpoch := ret1
 //@   call applyOperation requires [fenced] req.Leader == ghost.curLeader && req.LeaderEpoch == ghost.curEpoch
 //@   call applyOperation requires [proposed-with-its-precondition-check] !isnil(arg3)
+// (K60: the comparison with the partition's current (leader, epoch) must hold WHEN THE FAILOVER STATUS IS LOOKED UP, i.e.
+//  it is made under the lock that guards the status map: a leader change applied between an earlier comparison and the
+//  look-up has discarded the reported leader's status, and the report would be counted against the new leader)
+//@ ghost var statusMapLocked bool
+//@ ghost var namedUnderLock bool
 //@ func (*metadataAPI).ReportLeader serves C07
 //@   requires m != nil && req != nil
+//@   ghost at entry: ghost.statusMapLocked := false
+//@   ghost at entry: ghost.namedUnderLock := false
+//@   ghost after call Lock: ghost.statusMapLocked := true
+//@   ghost after call GetLeader: ghost.namedUnderLock := ghost.statusMapLocked && ret0 == req.Leader && ret1 == req.LeaderEpoch
+//@   call report requires [the-report-names-the-leader-as-it-is-when-the-status-is-looked-up] ghost.namedUnderLock
 //@   ghost after call GetLeader: ghost.curLeader := ret0
 //@   ghost after call GetLeader: ghost.curEpoch := ret1
 //@   ghost after call inISR: ghost.witnessOK := ret0 && arg1 == req.Replica
@@ -649,6 +659,11 @@ package server
 //@   ghost before call Unlock#3: ghost.electing[f] := false
 //@   ghost after call Quorum: ghost.enough := len(f.witnesses) > ret0
 //@   call Failover requires [more-than-quorum] ghost.enough
+// (a status that has been discarded - its leader was replaced, the stream deleted, the controller deposed - is dead: a
+//  report that got hold of it before must not start an election through it)
+//@   ghost at entry: ghost.statusLive := false
+//@   ghost after call Quorum: ghost.statusLive := !f.cancelled
+//@   call Failover requires [a-discarded-status-elects-nobody] ghost.statusLive
 //@   ensures [forgotten-after-failover] ghost.enough ==> len(f.witnesses) == 0
 //@ func (*partitionFailover).Quorum serves C07
 //@   requires p != nil && p.partition != nil
@@ -706,6 +721,10 @@ package server
 //@ ghost var appliedTo *partition
 //@ ghost var isrShrunk bool
 //@ ghost var leaderChanged bool
+//@ ghost var statusLive bool
+//@ func (*failoverStatus).cancel serves C07
+//@   assumes f != nil
+//@   ensures [a-discarded-status-is-dead] f.cancelled
 //@ func (*failoverStatus).forget serves C07
 //@   requires f != nil
 //@   ensures [no-longer-a-witness] !(witness in f.witnesses)
